@@ -12,7 +12,8 @@ RULE = ("one logical chain x many physical layouts (blocks->files assignment: si
         "interleaved/one-per-file; 1..300 files; file numbers sequential, sparse, up to 2^64-1; file-name padding 0/1/5/8 digits; gaps of "
         "zeros / random bytes / foreign-magic blocks / unindexed real blocks; sparse offsets beyond 4 GiB; extra 'f','l','R','F','t' keys; "
         "extra directory entries; index as log only / several tables / several sessions / compacted; base heights up to millions; a quarter "
-        "of the directories XOR-obfuscated): real "
+        "of the directories XOR-obfuscated; plus content kinds of the other checks - AuxPoW sections, spend histories, statistics "
+        "chains, hostile scripts, OP_RETURN payloads - x layouts x obfuscation x all five callbacks): real "
         "csvdump (+unspentcsvdump) run per layout; output must equal the model and be identical across layouts of the same chain; the H2 "
         "fetch log must name exactly the (file, offset) of the record of each height. "
         "distinct = (assignment, #files class, gaps, numbering, padding, sparse, extras, index style) signatures")
@@ -92,6 +93,73 @@ def case(spec):
             "sample": {"coin": coin, "layout": desc, "blocks": len(chain)}}
 
 
+def combo_chain(kind, coin, seed):
+    """chains of the kinds the other checks use (AuxPoW sections, spend histories, statistics chains, hostile scripts,
+    OP_RETURN payloads): layout independence must hold for every callback on every kind of content"""
+    rng = random.Random("C03combo|%s|%s|%s" % (kind, coin, seed))
+    if kind == "auxpow":
+        from . import C12
+        chain, _ = C12.build(dict(seed=seed, n=seed, coin=coin, versions=["below", "at", "above", "max", "one"], branch_lengths=[0, 1, 5, 32, 40], blocks=8))
+        return chain
+    if kind == "history":
+        from .. import histories
+        return histories.random_history_chain(rng, coin, 150, 8)
+    if kind == "stats":
+        from . import C15
+        return C15.build(dict(seed=seed, n=seed, coin=coin, kind="multi-coinbase", blocks=8))
+    if kind == "hostile":
+        from .. import scriptgen, gen as g
+        from ..chain import TxOut
+        pool = [s_ for _, s_ in scriptgen.fam_hostile(rng, big=False)]
+        rng.shuffle(pool)
+        from . import scriptcommon
+        return scriptcommon.embed_chain(rng, coin, [x for x in pool[:150] if len(x) < 3000], outs_per_tx=5, txs_per_block=3)
+    if kind == "opreturn":
+        from . import C16, scriptcommon
+        outs = C16.build_outputs(dict(seed=seed, n=seed, coin=coin, classes=["ascii", "utf8", "badutf8", "newline"], lengths=list(range(0, 140, 3))))
+        return scriptcommon.embed_chain(rng, coin, [x for _, x in outs], outs_per_tx=4, txs_per_block=3)
+    raise KeyError(kind)
+
+
+def combo_case(spec):
+    """content kind x physical layout x optional XOR obfuscation x all five callbacks"""
+    coin, kind = spec["coin"], spec["kind"]
+    chain = combo_chain(kind, coin, spec["chain_seed"])
+    lrng = random.Random("C03combolayout|%s|%s" % (spec["chain_seed"], spec["n"]))
+    kw, desc, pl_index = layouts.make_layout(lrng, chain, coin, **spec["layout"])
+    xor_key = bytes(lrng.randrange(0, 256) for _ in range(lrng.choice([8, 8, 5, 13]))) if spec.get("xor") else None
+    work = harness.fresh(os.path.join(spec["work"], "c%d" % spec["n"]))
+    d = os.path.join(work, "d")
+    datadir.write_datadir(d, COINS[coin], xor_key=xor_key, **kw)
+    binary = core.build(spec.get("profile", "release"))
+    v, runs = [], 0
+    start = 1 if spec.get("verify") else None
+    for cbname in ["csvdump", "unspentcsvdump", "balances", "simplestats", "opreturn"]:
+        dump = harness.fresh(os.path.join(work, "o"))
+        p = harness.run_cb(binary, d, coin, cbname, dump, start, None, verify=bool(spec.get("verify")), timeout=600)
+        runs += 1
+        S = start or 0
+        if cbname == "csvdump":
+            bad = oracles.check_csvdump(p, dump, chain, coin, S, None)
+        elif cbname == "unspentcsvdump":
+            bad = oracles.check_unspent(p, dump, chain, coin, S, None)
+        elif cbname == "balances":
+            bad = oracles.check_balances(p, dump, chain, coin, S, None)
+        elif cbname == "simplestats":
+            bad = oracles.check_stats(p, chain, coin, S, None)
+        else:
+            bad = oracles.check_opreturn(p, chain, coin, S, None)
+        v.extend(viol("combo:%s:%s" % (kind, sig), "%s [content=%s layout=%s xor=%s verify=%s coin=%s]" % (det, kind, desc, bool(xor_key), bool(spec.get("verify")), coin)) for sig, det in bad)
+    shutil.rmtree(work, ignore_errors=True)
+    return {"evaluations": runs, "violations": v, "counters": {"runs": runs, "combo_cases": 1, "combo_cases:" + kind: 1, "xor_obfuscated_layouts": 1 if xor_key else 0},
+            "shapes": ["combo|%s|%s|xor%d|v%d" % (kind, desc["assign"], bool(xor_key), bool(spec.get("verify")))],
+            "sample": {"kind": "combo", "content": kind, "coin": coin, "layout": desc, "xor": bool(xor_key)}}
+
+
+def dispatch(spec):
+    return combo_case(spec) if spec["case"] == "combo" else case(spec)
+
+
 def layout_plan(rng, count, max_files):
     """count layouts covering every dimension's extremes first, then random combinations"""
     out = []
@@ -137,6 +205,17 @@ def plan(chk):
             specs.append(dict(case="case", coin=coin, chain_seed=chk.seed * 1000 + c, n=n, layout=L, base=base, blocks=blocks,
                               verify=(n % 2 == 0), also_unspent=(n % 5 == 0), shuffle_index=(n % 3 == 0), xor=(n % 4 == 1),
                               profile="debug" if n % 11 == 0 else "release"))
+    # content kinds of the other checks x layouts x obfuscation x all callbacks
+    kinds = ["auxpow", "history", "stats", "hostile", "opreturn"]
+    lays = [dict(assign="round_robin", nfiles=3), dict(assign="random", nfiles=4, gaps="random"), dict(assign="reversed", nfiles=2, gaps="zeros"),
+            dict(assign="interleaved2", nfiles=4, file_order="shuffled"), dict(assign="contiguous", nfiles=3, gaps="unindexed", sparse=True),
+            dict(assign="one_per_file", nfiles=99, numbering="sparse", pad=0)]
+    for i in range(150 if chk.thorough else 20):
+        n += 1
+        kind = kinds[i % 5]
+        coin = ["namecoin", "dogecoin"][i % 2] if kind == "auxpow" else COIN_NAMES[(i * 3) % 8]
+        specs.append(dict(case="combo", kind=kind, coin=coin, chain_seed=chk.seed * 1000 + i, n=n, layout=lays[i % len(lays)], xor=(i % 2 == 0),
+                          verify=(i % 3 == 0), profile="debug" if i % 7 == 0 else "release"))
     return specs
 
 
@@ -149,7 +228,7 @@ def main():
     for sp in specs:
         sp["work"] = chk.workdir
     digests = {}
-    for res in core.parallel(case, specs):
+    for res in core.parallel(dispatch, specs):
         chk.absorb(res)
         if res.get("digest") and res["digest"][3]:
             digests.setdefault(tuple(res["digest"][:3]), set()).add(res["digest"][3])
@@ -166,4 +245,4 @@ def main():
 
 
 def replay(spec):
-    core.replay_case("C03", {"case": case}, spec)
+    core.replay_case("C03", {"case": case, "combo": combo_case}, spec)
